@@ -28,6 +28,11 @@ func checkC18(c *Ctx, r *Report) {
 	intToBytesRule(c, r, "C18.R2.int-to-bytes")
 	r.rule("C18.R1.name-eq", 1, "the signer-name test compares through equal(), which folds exactly A-Z on both sides")
 	foldRule(c, r, "C18.R1.name-eq")
+	r.rule("C18.R3.verify-bounds", 28, "every index / slice on the message in SIG.Verify and the name and header walkers it uses is entailed in bounds, for messages of at least header size (the property's hypothesis)")
+	boundsRuleFor(c, r, "C18.R3.verify-bounds", []string{"SIG.Verify"}, false, nil, "a truncated or malformed message makes Verify panic instead of returning an error", map[string]int64{"SIG.Verify.buf": 12}, map[string]string{
+		"SIG.Verify:slice-order UnpackDomainName()#1+10 <= UnpackDomainName()#1+0 in buf": "buf[sigstart:sigend] needs 'UnpackDomainName returns an offset beyond the one it was given', which holds only on the paths without a compression pointer taken first (a path-sensitive invariant over ptr and off) and is not derived",
+		"SIG.Verify:slice-order +12 <= offset+0 in buf":                                   "buf[12:bodyend] needs 'offset never decreases below the header size' through the same monotonicity of UnpackDomainName",
+	})
 }
 
 func c18R1(c *Ctx, r *Report) {
